@@ -746,6 +746,18 @@ class IoChan(Engine):
                     self._probe(st, "single_item_dimension_omitted")
         style_headers(frame, world, dims, world["vseed"])
         intact = frame.copy()
+        # reach: which of the rarer world features this run has
+        its = [d["items"] for d in world["dims"]]
+        if any(x == list(range(len(x))) for x in its):
+            self._probe(st, "counter_dimension_0_to_n_in_order")
+        if any(i != j and set(a) < set(b) for i, a in enumerate(its) for j, b in enumerate(its)):
+            self._probe(st, "nested_item_sets")
+        if lay.get("mimic"):
+            self._probe(st, "values_repeat_labels" + ("_plus_fraction" if lay["mimic"]["frac"] else ""))
+        if lay["header"] == "items" and lay.get("blank_headers"):
+            self._probe(st, "items_identified_columns_called_unnamed")
+        if lay["index"] == "unnamed" and lay["header"] == "items":
+            self._probe(st, "index_levels_without_names")
         # ---------------- faults on the stored table
         medium_faults = []
         for f in run["ops"]:
@@ -762,6 +774,8 @@ class IoChan(Engine):
             # text and spreadsheet media cannot hold an entirely blank row: pandas skips it when reading
             frame.rows = [r for r in frame.rows if any(c is not None for c in r)]
         exp = expectation(frame, dims, flags, world)
+        if exp.get("why") == "values_look_like_items":
+            self._probe(st, "no_verdict_values_look_like_items")
         # ---------------- medium
         consumer = world["consumer"]
         medium = world["medium"]
